@@ -68,4 +68,10 @@ CONTRACTS = nary(2) + nary(3) + [
         # K7: the choice is made under the lock, the winner then forwards outside it under `choice[0] == <its side>`
         exclusive={"left_source": "choice[0] == 'L'", "right_source": "choice[0] == 'R'"},
     ),
+    OpContract(
+        name="take_until", props=["C14"], file=OPS + "_takeuntil.py", func="take_until_",
+        call="take_until_(other)(source)", params={}, sources=("source", "other"),
+        spec="specs.c13:take_until", witness="source.pipe(ops.take_until(other))",
+        spec_args={"term": "bool"}, inv="True",
+    ),
 ]
